@@ -247,9 +247,10 @@ sb_error_t sb_trajectory_stats_calculator_run(
                     } else {
                         /* We can consume only part of the segment */
                         if (!sb_poly_touches(&segment->poly.z, altitude - to_descend, &rel_t)) {
-                            /* should not happen, let's just land at the beginning
-                             * of the segment */
-                            rel_t = 0;
+                            /* the touching point was lost to rounding near the
+                             * ends of the segment; we know that it is inside the
+                             * segment so estimate it from the descent left */
+                            rel_t = to_descend / delta;
                         }
                         result->landing_time_sec = segment->start_time_sec + rel_t * segment->duration_sec;
                         break;
